@@ -55,6 +55,11 @@ func c20Seeds(loader string, r *rand.Rand) [][]byte {
 			out = append(out, []byte(t))
 		}
 		out = append(out, []byte(zooRule))
+		// long runs of non-ASCII text (error messages quote them: bytes and runes differ)
+		for _, ch := range []string{"漢", "é", "😀"} {
+			n := 40 + r.Intn(140)
+			out = append(out, []byte(`rule U "`+strings.Repeat(ch, n)+`" { when F.S1 == "`+strings.Repeat(ch, n)+`" then F.S1 = '`+strings.Repeat(ch, n/2)+`'; }`))
+		}
 		d := 8 + r.Intn(56)
 		out = append(out, []byte(`rule N "nested" { when `+nested("(", ")", d, "F.A == 1")+` then F.A = `+nested("(", ")", d, "1")+`; }`))
 		out = append(out, []byte(`rule N "chain" { when F`+strings.Repeat(".A", d)+` == 1 then F.A = F.Arr`+strings.Repeat("[0]", d)+`; }`))
